@@ -121,6 +121,35 @@ def run(rep, tier, seed, replay):
                 continue
             rep.violation("oracle", "a combinator with invariant text %s (fragment %s)" % ("matches a second path besides its invariant text" if in_impl else "does not match its invariant text", f),
                           {"any": ms, "path": w, "text": stext}, impl=in_impl, spec=not in_impl, fragment=f)
+    # ---- the same pattern obtained another way (into_owned, FromStr, any of one): its text() is judged like the glob's
+    if replay is None or "route" in replay["input"]:
+        subjects = lib.conversion_routes(P, exprs, built if replay is None else built)
+        todo3 = []
+        for sj in subjects:
+            k = sj["k"]
+            rep.stats["route-text:%s:%s" % (sj["route"], sj["text"].split(":")[0])] += 1
+            if not sj["text"].startswith("inv:"):
+                continue
+            if sj["text"] == P.impl[k].get("text") and sj["pattern"] == P.impl[k]["pattern"]:
+                continue          # says and runs the same as the borrowed glob: judged above
+            todo3.append(sj)
+        res3 = h.ask(["L %s %s" % (hexs(sj["pattern"]), hexs("(?s)^(?-i:%s)$" % rx_escape(unhex(sj["text"][4:])))) for sj in todo3])
+        for sj, line in zip(todo3, res3):
+            if line == "EQUAL":
+                rep.stats["route:invariant-and-singleton"] += 1
+            elif line.startswith("DIFF"):
+                w, in_impl = unhex(line.split()[1]), line.split()[2] == "first"
+                got = h.ask(["RX %s %s" % (hexs(sj["pattern"]), hexs(w))])[0].startswith("match")
+                if got != in_impl:
+                    rep.stats["witness-not-confirmed"] += 1
+                    continue
+                f3 = m.ask(["F11 " + hexs(sj["expr"])])[0]
+                if not in_impl and "K-TEXT-SEPCLASS" in f3:
+                    rep.stats["invariant-unmatched-sepclass"] += 1
+                    continue
+                rep.violation("oracle", "the pattern obtained by %s reports invariant text %r but its program %s (the glob built by Glob::new reports %s)" % (
+                    sj["route"], unhex(sj["text"][4:]), "matches %r as well" % w if in_impl else "does not match it", P.impl[sj["k"]].get("text", "?")[:60]),
+                    {"expr": sj["expr"], "route": sj["route"], "path": w}, impl=sj["text"][:80])
     # casing hypothesis H, validated on the driver alphabet on every run and over all scalars in the thorough tier
     lo_hi = [(0, 0x3000)] if tier == "quick" else [(a, min(a + 0x8000, 0x110000)) for a in range(0, 0x110000, 0x8000)]
     sweep = h.ask(["CF %d %d" % (a, b) for a, b in lo_hi])
